@@ -71,6 +71,12 @@ type ExecutionContext struct {
 	Public     Context
 	Private    Context
 	Shared     Context
+
+	// nodeState holds what stateful tags (e.g. cycle) have to remember during
+	// one execution, keyed by the tag's node. It is created per execution and
+	// shared with all child contexts, so the compiled template itself is never
+	// modified by executing it.
+	nodeState map[any]any
 }
 
 var pongo2MetaContext = Context{
@@ -89,6 +95,7 @@ func newExecutionContext(tpl *Template, ctx Context) *ExecutionContext {
 		Public:     ctx,
 		Private:    privateCtx,
 		Autoescape: autoescape,
+		nodeState:  make(map[any]any),
 	}
 }
 
@@ -101,6 +108,7 @@ func NewChildExecutionContext(parent *ExecutionContext) *ExecutionContext {
 		Autoescape: parent.Autoescape,
 	}
 	newctx.Shared = parent.Shared
+	newctx.nodeState = parent.nodeState
 
 	// Copy all existing private items
 	newctx.Private.Update(parent.Private)
